@@ -13,6 +13,7 @@
 // == closed-form oracle; key after the call recorded.  Search ends when no new key appears.
 // Replaying a history must reproduce its key (asserted: framework error otherwise).
 #include "vcommon.hpp"
+#include <gmp.h>
 #include "ntt_goldilocks.hpp"
 #include "ntt_oracle.hpp"
 #include <omp.h>
@@ -220,8 +221,35 @@ static void deep_history(const Cfg &cfg, const std::vector<Call> &A, const std::
     }
 }
 
+// GMP's allocator belongs to the application (mp_set_memory_functions): here every GMP block carries a 16-byte header, so a block
+// that GMP allocated and the library releases with libc free() -- or the reverse -- is an invalid free (glibc aborts, ASan reports it)
+static void *gm_alloc(size_t n)
+{
+    char *p = (char *)malloc(n + 16);
+    if (!p) abort();
+    memcpy(p, "GMPHDR__", 8);
+    memcpy(p + 8, &n, sizeof n);
+    return p + 16;
+}
+static void *gm_realloc(void *q, size_t, size_t n)
+{
+    char *p = (char *)q - 16;
+    if (memcmp(p, "GMPHDR__", 8)) abort();
+    p = (char *)realloc(p, n + 16);
+    if (!p) abort();
+    memcpy(p + 8, &n, sizeof n);
+    return p + 16;
+}
+static void gm_free(void *q, size_t)
+{
+    char *p = (char *)q - 16;
+    if (memcmp(p, "GMPHDR__", 8)) abort();
+    free(p);
+}
+
 int main(int argc, char **argv)
 {
+    mp_set_memory_functions(gm_alloc, gm_realloc, gm_free);
     Args args = parse_args(argc, argv);
     const bool th = args.thorough();
     std::vector<Cfg> cfgs = {{8, 1, 4}, {8, 3, 4}};
@@ -229,6 +257,14 @@ int main(int argc, char **argv)
     if (!args.one.empty())
     {
         auto m = parse_case(args.one);
+        if (cu(m, "construct", 0))
+        {
+            Cfg cfg{cu(m, "D"), (unsigned)cu(m, "nthreads"), 4};
+            ChildResult r = run_child([&](FILE *f) { omp_set_num_threads(cfg.base_omp); NTT_Goldilocks o(cfg.D, cfg.nthreads); fprintf(f, "ok"); });
+            if (r.kind != 0) rep().viol(fmt("C19.%s.constructor", crash_sig(r).c_str()), args.one, "constructing the transform object ended the process: " + err_tail(r));
+            rep().flush();
+            return 0;
+        }
         if (cu(m, "deep", 0))
         {
             Cfg cfg{cu(m, "D"), (unsigned)cu(m, "nthreads"), 4};
@@ -272,7 +308,11 @@ int main(int argc, char **argv)
                 NTT_Goldilocks o(cfg.D, cfg.nthreads);
                 fprintf(f, "%s", key_of(o).c_str());
             });
-            if (r.kind != 0) { fprintf(stderr, "cannot construct object\n"); return 2; }
+            if (r.kind != 0)
+            {
+                rep().viol(fmt("C19.%s.constructor", crash_sig(r).c_str()), fmt("construct=1 D=%llu nthreads=%u", (unsigned long long)cfg.D, cfg.nthreads), "constructing the transform object ended the process: " + err_tail(r));
+                continue;
+            }
             seen[r.out] = {};
             frontier.push_back({{}, r.out});
         }
